@@ -308,6 +308,10 @@ def run_case(case, ctx):
                 and bool(np.all(np.abs(np.asarray(bb.bounds)[:, 1] - (pos + x0)) <= 4e-15 * (np.abs(pos) + x0))),
                 {"bbox": bb.bounds},
             )
+            # reading the accessors leaves the droplet as it was, and a second reading gives the same answers
+            bb2 = drop.bbox
+            ctx.check("C12.accessors-pure", bool(np.array_equal(drop.position, pos)) and drop.radius == x0 and bool(np.array_equal(np.asarray(bb2.bounds), np.asarray(bb.bounds)))
+                      and eq(drop.volume, vol_ref(x0, d)) and eq(drop.surface_area, surf_ref(x0, d)), {"position": drop.position, "want": pos, "bbox_again": bb2.bounds, "bbox": bb.bounds})
             if cls is SphericalDroplet and form == "float" and d >= 2:
                 perturbed_scaling(ctx, x0, d, pos)
             fv = cls.from_volume(pos, x0)  # x0 read as a volume
@@ -345,4 +349,4 @@ def run_case(case, ctx):
 
 
 def expected_positive(tier):
-    return ["C12.formula", "C12.inverse", "C12.derivative", "C12.derivative-fd", "C12.variants-agree", "C12.droplet", "C12.setter", "C12.shape", "factory-order-histories", "C12.perturbed"]
+    return ["C12.formula", "C12.inverse", "C12.derivative", "C12.derivative-fd", "C12.variants-agree", "C12.droplet", "C12.setter", "C12.shape", "factory-order-histories", "C12.perturbed", "C12.accessors-pure"]
